@@ -119,6 +119,7 @@ func (g *gctx) concFailover(absent [nIDs]bool) *Node {
 	n := &Node{K: "failover"}
 	m := g.rng(2, 3, "fmembers")
 	anchor := g.rng(0, m-1, "anchor")
+	n.Active = g.rng(0, m-1, "active")
 	for j := 0; j < m; j++ {
 		l := &Node{K: "leaf", Cont: make([]int, nIDs), RO: true, Anchor: j == anchor}
 		for i := range l.Cont {
@@ -201,8 +202,8 @@ func genConc(t *rapid.T, c *Case) {
 	if swap {
 		c.Chain = &Node{K: "swap", Kids: []*Node{c.Chain}}
 	}
-	workers := g.rng(2, 6, "workers")
-	rounds := g.rng(1, 4, "rounds")
+	workers := g.rng(2, hx.Pick(6, 8), "workers")
+	rounds := g.rng(1, hx.Pick(4, 6), "rounds")
 	ctlKinds := []string{"break", "heal", "break"}
 	if swap {
 		ctlKinds = []string{"swap", "swap", "swap", "break", "heal"}
@@ -210,7 +211,7 @@ func genConc(t *rapid.T, c *Case) {
 	for r := 0; r < rounds; r++ {
 		var rd Round
 		for w := 0; w < workers; w++ {
-			k := g.rng(1, 3, "burst")
+			k := g.rng(1, hx.Pick(3, 4), "burst")
 			var ops []Op
 			for i := 0; i < k; i++ {
 				ops = append(ops, Op{Op: pick(g, []string{"get", "get", "get", "has"}, "op"), ID: g.rng(0, nIDs-1, "id")})
@@ -264,7 +265,7 @@ func breakable(r *rnode) []*rnode {
 
 func runConc(c Case, o *hx.Outcome) (cs concStats) {
 	u := newUniverse(c.Seed)
-	b := &builder{u: u, rec: &recorder{on: false}}
+	b := &builder{u: u, rec: &recorder{on: false}, prepos: true}
 	top := b.build(c.Chain, nil)
 	canSwap := top.kind == "swap"
 
@@ -473,6 +474,7 @@ func runConc(c Case, o *hx.Outcome) (cs concStats) {
 	for _, l := range b.all {
 		cs.advances += l.Delivered()
 	}
+	cs.advances -= b.warm
 	return cs
 }
 
